@@ -17,7 +17,7 @@ OPAQUE = ("std::time::Instant", "std::time::Duration", "std::net::SocketAddr")
 
 
 class Run:
-    def __init__(self, prog, key, names=None, hooks=None, pre_hooks=None, local_models=None, setup=None, track_content=False, bool_vars=True, max_parts=None, def_models=None, path_sensitive=None, byte_defs=False):
+    def __init__(self, prog, key, names=None, hooks=None, pre_hooks=None, local_models=None, setup=None, track_content=False, bool_vars=True, max_parts=None, def_models=None, path_sensitive=None, byte_defs=False, net_records=False):
         self.prog = prog
         self.it = it = Interp(prog, M, INVARIANTS, trace=__import__("os").environ.get("E2_TRACE"))
         it.bool_vars = bool_vars
@@ -28,7 +28,8 @@ class Run:
         use_registry(it)
         if max_parts:
             it.max_parts = max_parts
-        it.opaque = OPAQUE
+        it.opaque = OPAQUE if not net_records else tuple(x for x in OPAQUE if not x.startswith("std::net::"))
+        it.net_records = net_records
         it.ret_hooks.update(hooks or {})
         it.pre_hooks.update(pre_hooks or {})
         it.local_models.update(local_models or {})
